@@ -358,11 +358,13 @@ double splinetable<Alloc>::ndsplineeval_deriv(const double* x, const int* center
 						  x[n], centers[n], order[n],
 						  localbasis[n]);
 		} else {
+			//evaluate on the same polynomial piece as values and first derivatives
+			int piece = bspline_piece(&knots[n][0], nknots[n], x[n], centers[n], order[n]);
 			for (uint32_t i = 0; i <= order[n]; i++)
-				localbasis[n][i] = bspline_deriv(
+				localbasis[n][i] = bspline_deriv_on_piece(
 												   &knots[n][0], x[n],
 												   centers[n] - order[n] + i, 
-												   order[n], derivatives[n]);
+												   order[n], derivatives[n], piece);
 		}
 	}
 	
@@ -576,11 +578,13 @@ double splinetable<Alloc>::evaluator_type<Float>::ndsplineeval_deriv(const doubl
 						  x[n], centers[n], table.order[n],
 						  localbasis[n]);
 		} else {
+			//evaluate on the same polynomial piece as values and first derivatives
+			int piece = bspline_piece(&table.knots[n][0], table.nknots[n], x[n], centers[n], table.order[n]);
 			for (uint32_t i = 0; i <= table.order[n]; i++)
-				localbasis[n][i] = bspline_deriv(
+				localbasis[n][i] = bspline_deriv_on_piece(
 												   &table.knots[n][0], x[n],
 												   centers[n] - table.order[n] + i, 
-												   table.order[n], derivatives[n]);
+												   table.order[n], derivatives[n], piece);
 		}
 	}
 	
